@@ -402,6 +402,34 @@ def run(ctx):
                          "plus concatenations; the same profiles rebuilt through the builder API (tree, text, dictionary must coincide); every interleaving of four kinds of modification and "
                          "as_dict() up to the bound from ProfileHist's dumped graph; distinct = profiles and histories")
     ctx.exhaustive = not q
+    # one builder block object attached in more than one place (the same transform for both architectures, the same headers in both
+    # directions): the profile is the one built with a fresh block per place, and the one the text says
+    from dissect.cobaltstrike import c2profile
+
+    def shared_blocks(shared):
+        mk_t = lambda: c2profile.StageTransformBlock(prepend=b"\x90\x90", strrep=[("ReflectiveLoader", "run")])  # noqa: E731
+        mk_h = lambda: c2profile.HttpOptionsBlock(header=[("Accept", "*/*")])  # noqa: E731
+        t1 = mk_t()
+        t2 = t1 if shared else mk_t()
+        t3 = t1 if shared else mk_t()
+        t4 = t1 if shared else mk_t()
+        h1 = mk_h()
+        h2 = h1 if shared else mk_h()
+        return c2profile.C2Profile(stage=c2profile.StageBlock(userwx="false", transform_x86=t1, transform_x64=t2),
+                                   process_inject=c2profile.ProcessInjectBlock(allocator="NtMapViewOfSection", transform_x86=t3, transform_x64=t4),
+                                   http_stager=c2profile.HttpStagerBlock(client=h1, server=h2))
+
+    o_sh = core.outcome(lambda: (lambda p_: (dict(p_.as_dict()), p_.as_text()))(shared_blocks(True)))
+    o_fr = core.outcome(lambda: (lambda p_: (dict(p_.as_dict()), p_.as_text()))(shared_blocks(False)))
+    ctx.evaluations += 2
+    if o_fr[0] == "ok":
+        o_tx = core.outcome(lambda: dict(c2profile.C2Profile.from_text(o_fr[1][1]).as_dict()))
+        if o_sh != o_fr or o_tx != ("ok", o_fr[1][0]):
+            ctx.violation("the dictionary view of a built profile differs from that of the equivalent profile", {"op": "C2Profile.as_dict", "failed": "block_object_used_in_two_places"},
+                          {"shared": str(o_sh)[:300], "fresh": str(o_fr)[:300], "parsed_from_text_of_fresh": str(o_tx)[:200]})
+    else:
+        raise core.MachineryError(f"the profile with one block object per place cannot be built: {o_fr}")
+    ctx.count_distinct(("shared_blocks",))
     # history freedom of the functions of their input behind this property (Pure.tla)
     from vt.checks import xpure
 
